@@ -105,5 +105,9 @@ func caseTimeout(op string) time.Duration {
 	if strings.HasPrefix(op, "run.") {
 		return 60 * time.Second
 	}
+	// thousands of scripted rounds with spin-waits: 8 s on an idle machine, several times that next to other checks
+	if strings.HasPrefix(op, "pool.") || strings.HasPrefix(op, "progress.stress") || strings.HasPrefix(op, "iter.stress") {
+		return 150 * time.Second
+	}
 	return 20 * time.Second
 }
